@@ -40,7 +40,8 @@ def rand_word(rng, alpha, lo, hi):
 def shaped_sets(rng, count, big=False):
     """structured, mostly-valid key sets aimed at the proofs' case splits"""
     out = []
-    alphas = [b'ab', b'abc', b'\x00ab', b'a\xff\x80', bytes(range(97, 123)), bytes(range(256)), b'\x00\xff', b'01']
+    alphas = [b'ab', b'abc', b'\x00ab', b'a\xff\x80', bytes(range(97, 123)), bytes(range(256)), b'\x00\xff', b'01',
+              bytes(range(1, 256)), bytes(range(128, 256))]
     def add(desc, K):
         K = sorted(set(K))
         if K:
@@ -58,7 +59,13 @@ def shaped_sets(rng, count, big=False):
     add('high-bytes', [b'\x80', b'\xff', b'a\xff', b'\xff\x00', b'\x7f', b'\xfe\xff'])
     add('f5-shape', [b'ab', b'ac', b'dxyz'])
     add('long-key', [b'k' * 300, b'k' * 299 + b'j', b'z'])
+    add('long-suffixes', [b'alpha/0123456789abcdefghijklmnopqrstuvwxyz', b'beta/zyxwvutsrqponmlkjihgfedcba9876543210',
+                          b'gamma/' + bytes(range(1, 60)), b'gamma/' + bytes(range(1, 40)) + b'!'])
     add('all-bytes-1', [bytes([b]) for b in range(256)])
+    # alphabets at the exact limits: every byte value but one (the missing one gets the first unused code)
+    add('all-nonnul-1', [bytes([b]) for b in range(1, 256)])
+    add('all-but-ff-2', [bytes([b, 255 - b if b else 7]) for b in range(255)])
+    add('nonnul-255-long', [bytes(range(1, 256))[i:] for i in range(0, 255, 17)] + [bytes([b]) * 2 for b in range(1, 256, 2)])
     while len(out) < count:
         a = rng.choice(alphas)
         shape = rng.choice(['rand', 'rand', 'chain', 'endings', 'dense', 'long'])
@@ -84,7 +91,11 @@ def shaped_sets(rng, count, big=False):
         add('big-complete4', all_strings(b'abcd', 6)[1:])
         add('big-complete2', all_strings(b'\x00\xff', 11))
         add('big-comb', [bytes([97 + i % 26, 97 + (i // 26) % 26]) + b'x' * (i % 7) + bytes([48 + j]) for i in range(676) for j in range(4)])
-    return out[:count + (6 if big else 0)]
+        # a few hundred keys over (almost) all byte values: crowded nodes whose children span more than one 128-unit
+        # half-block (the L1 block of trie_7), so the builder's block search leaves the node's own block
+        for n in (220, 300, 400):
+            add('big-wide-%d' % n, [rand_word(rng, bytes(range(0 if n != 300 else 1, 256)), 1, 4) for _ in range(n)])
+    return out[:count + (9 if big else 0)]
 
 def scale_sets(rng):
     """key sets at 'natural' size boundaries (powers of two): shared-prefix depth around 2^16, a stored suffix that makes
@@ -107,6 +118,29 @@ def huge_set(rng):
     return ('huge-40k', sorted(set(rand_word(rng, a, 4, 10) for _ in range(24000))))
 
 # ---------------------------------------------------------------- queries
+def paired_deviations(k, rng):
+    """two-byte deviations of k: the same XOR mask at two positions whose distance is a machine-word size
+    (word-at-a-time comparisons that accumulate differences can cancel), a transposition, two different masks"""
+    out = []
+    n = len(k)
+    def flip(pos_masks):
+        b = bytearray(k)
+        for i, m in pos_masks:
+            b[i] ^= m
+        return bytes(b)
+    for d in (1, 2, 4, 8, 16, 32):
+        if n > d:
+            i = rng.randrange(n - d)
+            out.append(flip([(i, 1), (i + d, 1)]))
+            j = n - d - 1                      # the last position that still has a partner
+            out.append(flip([(j, 0x20), (j + d, 0x20)]))
+    if n >= 2:
+        i = rng.randrange(n - 1)
+        if k[i] != k[i + 1]:
+            out.append(k[:i] + bytes([k[i + 1], k[i]]) + k[i + 2:])
+        out.append(flip([(0, 0x80), (n - 1, 1)]))
+    return [q for q in out if q != k]
+
 def deviation_queries(K, rng, limit):
     """per-dictionary deviation closure (DESIGN 4.1 iii)"""
     Q = []
@@ -137,6 +171,10 @@ def deviation_queries(K, rng, limit):
     if len(Q) > limit:
         head = Q[:limit // 2]
         Q = head + rng.sample(Q[limit // 2:], limit - len(head))
+    # two-byte deviations of the longest keys (kept outside the sampling)
+    for k in sorted(ks, key=len, reverse=True)[:4]:
+        for q in paired_deviations(k, rng):
+            add(q)
     return Q
 
 def exhaustive_queries(alpha_plus, maxlen):
@@ -268,6 +306,12 @@ def cv_cases(rng, count):
         vs = [rng.randint(0, top) for _ in range(n)]
         vs[rng.randrange(n)] = top if rng.random() < 0.7 else (1 << (w - 1))
         out.append(mk('cv-w%d' % w, vs))
+        # the constructor is a template over the container: narrower element types whose values fit
+        for ct, cw in (('u8', 8), ('u16', 16), ('u32', 32)):
+            if w <= cw and (w > cw // 2 or w in (1, 7, 12)):
+                c = mk('cv-w%d-%s' % (w, ct), vs + [top, 1, top])
+                c['ops'] = ['CT ' + ct] + c['ops']
+                out.append(c)
     for c in range(count):
         w = rng.randint(1, 64)
         out.append(mk('cv-r%d' % c, [rng.getrandbits(w) for _ in range(rng.randint(1, 300))] + [1 << (w - 1)]))
@@ -334,6 +378,7 @@ def tail_cases(rng, count):
         ('high', [b'\xff', b'a\xff', b'\x80\xff', b'\x7f', b'\xff\x7f']),
         ('one', [b'z']),
         ('none', []),
+        ('long', [bytes(range(97, 123)) * 2, b'0123456789abcdefghijklmnopqrstuvwxyz', b'x' * 40, b'ab' * 17 + b'c']),
     ]
     for name, sufs in fixed:
         for bin_ in (0, 1):
@@ -363,7 +408,7 @@ def tail_probes(sufs, pos, rng, bin_):
         tp = pos[np]
         cand = [s, s[:-1], s + b'a', s + b'\x00', s[:-1] + bytes([(s[-1] + 1) % 256]), b'', s + rng.choice(allsuf), s * 2,
                 s[:len(s) // 2]]
-        for q in cand:
+        for q in cand + paired_deviations(s, rng):
             ops.append('M %s %d' % (hexs(q), tp)); ops.append('PM %s %d' % (hexs(q), tp))
         ops.append('DEC %d' % tp)
     for q in [b'', b'\x00', b'a', b'\x00' + (allsuf[0] if allsuf else b'x')]:
